@@ -25,6 +25,7 @@ import (
 	"google.golang.org/protobuf/reflect/protoreflect"
 	"google.golang.org/protobuf/reflect/protoregistry"
 	"google.golang.org/protobuf/types/descriptorpb"
+	"google.golang.org/protobuf/types/gofeaturespb"
 	"google.golang.org/protobuf/types/pluginpb"
 )
 
@@ -289,10 +290,15 @@ func (e *env) checkRequest(c *vh.Ctx, br *baseReq, param string, r *rand.Rand, s
 			break
 		}
 	}
-	// 1b. the generator run in-process (same tree, linked into the harness; three times for random schemas): Go randomises map iteration per
-	// loop, so order dependence also shows without a new process
+	// 1b. the generator run in-process (same tree, linked into the harness), two or three times: Go randomises map
+	// iteration per loop, so order dependence also shows without a new process. In-process runs are compared with
+	// each other only: the harness is a *different binary* from the plugin, and protoc-gen-go's output legitimately
+	// depends on the binary in two ways — prototext whitespace of .meta files (internal/detrand seeds on the
+	// binary), and which extensions are linked in (isTrackedMessage reads the field-tracking option from the
+	// *unknown* fields of MessageOptions; a binary that links internal/testprotos/annotation parses it as a known
+	// extension and generates no tracking code). Differences across the two binaries are counted, not failed.
 	if base.out.Exit == "" && base.out.Resp.Error == nil {
-		nin := 1
+		nin := 2
 		if strings.HasPrefix(br.label, "random-") || br.label == "replay" {
 			nin = 3
 		}
@@ -304,31 +310,34 @@ func (e *env) checkRequest(c *vh.Ctx, br *baseReq, param string, r *rand.Rand, s
 				c.Check(false, "in-process generation fails where the plugin subprocess succeeds", in("in-process run", nil, head(perr, 300)), "")
 				break
 			}
-			bad := false
-			for _, n := range sortedKeys(bf) {
-				// .meta files (annotate_code) are prototext, whose whitespace is deliberately a function of the
-				// *binary* (internal/detrand): harness binary and plugin binary legitimately differ there, so they are
-				// compared between the in-process runs only
-				ref, refName := bf[n], "the plugin subprocess"
-				if strings.HasSuffix(n, ".meta") {
-					if first == nil {
-						continue
+			if first == nil {
+				first = pf
+				same := len(pf) == len(bf)
+				for _, n := range sortedKeys(bf) {
+					if !strings.HasSuffix(n, ".meta") && pf[n] != bf[n] {
+						same = false
 					}
-					ref, refName = first[n], "the first in-process run"
 				}
-				if pf[n] != ref {
-					c.Check(false, "in-process generation differs from "+refName+" (same request)", in(fmt.Sprintf("in-process run %d", i+1), nil, n+": "+firstDiff(ref, pf[n])), "")
-					bad = true
+				if same {
+					c.Hist("in-process-vs-plugin-binary:identical")
+				} else {
+					c.Hist("in-process-vs-plugin-binary:differs(by-design: linked extensions)")
+				}
+				continue
+			}
+			bad := len(pf) != len(first)
+			d := "different file sets"
+			for _, n := range sortedKeys(first) {
+				if pf[n] != first[n] {
+					bad, d = true, n+": "+firstDiff(first[n], pf[n])
 					break
 				}
 			}
-			if first == nil {
-				first = pf
-			}
 			if bad {
+				c.Check(false, "two in-process runs of the generator on the same request give different files", in(fmt.Sprintf("in-process run %d vs run 1", i+1), nil, d), "")
 				break
 			}
-			c.Hist("in-process-run:identical")
+			c.Hist("in-process-runs:identical")
 		}
 	}
 	// 2. variants: per generated file name
@@ -377,6 +386,16 @@ func (e *env) checkRequest(c *vh.Ctx, br *baseReq, param string, r *rand.Rand, s
 	}
 }
 
+var pluginTypes *protoregistry.Types
+
+func pluginLikeTypes() *protoregistry.Types {
+	if pluginTypes == nil {
+		pluginTypes = &protoregistry.Types{}
+		pluginTypes.RegisterExtension(gofeaturespb.E_Go)
+	}
+	return pluginTypes
+}
+
 // generateFromRequestBytes runs protogen + internal_gengo in-process on a serialized request.
 func generateFromRequestBytes(raw []byte) (files map[string]string, errText string) {
 	defer func() {
@@ -384,8 +403,10 @@ func generateFromRequestBytes(raw []byte) (files map[string]string, errText stri
 			errText = fmt.Sprintf("panic: %v", e)
 		}
 	}()
+	// parse the request the way the plugin binary does: it links descriptorpb, pluginpb and gofeaturespb only, so
+	// (pb.go) features are known extensions and every other option stays in the unknown fields
 	req := &pluginpb.CodeGeneratorRequest{}
-	if err := proto.Unmarshal(raw, req); err != nil {
+	if err := (proto.UnmarshalOptions{Resolver: pluginLikeTypes()}).Unmarshal(raw, req); err != nil {
 		return nil, err.Error()
 	}
 	gen, err := protogen.Options{}.New(req)
@@ -494,14 +515,14 @@ func runC40(c *vh.Ctx) {
 	reqs := append([]*baseReq{}, linked[:nl]...)
 	nlinked := len(reqs)
 	reqs = append(reqs, randomRequests(c, c.N(5, 25))...)
-	// thorough tier: ALL parameter combinations for a seed-dependent quarter of the requests (at least 6 multi-file
-	// packages among them), eight sampled combinations plus the four fixed ones for the rest
+	// thorough tier: ALL parameter combinations for a seed-dependent fifth of the requests (at least 5 multi-file
+	// packages among them), six sampled combinations plus the four fixed ones for the rest
 	full := map[int]bool{}
 	if c.Thorough() {
 		multi := 0
 		for _, i := range r.Perm(len(reqs)) {
 			isMulti := len(reqs[i].toGen) > 1
-			if (isMulti && multi < 6) || len(full) < len(reqs)/4 {
+			if (isMulti && multi < 5) || len(full) < len(reqs)/5 {
 				full[i] = true
 				if isMulti {
 					multi++
@@ -513,7 +534,7 @@ func runC40(c *vh.Ctx) {
 	// wall-clock budget: on an overloaded machine the run degrades to fewer requests instead of running into
 	// the timeout of bin/check (which would look like a violation)
 	start := time.Now()
-	budget := time.Duration(c.N(240, 2400)) * time.Second
+	budget := time.Duration(c.N(240, 1500)) * time.Second
 	for ri, br := range reqs {
 		if time.Since(start) > budget {
 			c.R.Notes = appendNote(c.R.Notes, fmt.Sprintf("stopped by the wall-clock budget (%v) after %d of %d requests", budget, ri, len(reqs)))
@@ -524,7 +545,7 @@ func runC40(c *vh.Ctx) {
 		if !full[ri] {
 			// the empty parameter, the three API levels, and a seed-dependent sample of the rest
 			pick := []string{"", "default_api_level=API_OPEN", "default_api_level=API_HYBRID", "default_api_level=API_OPAQUE,annotate_code=true"}
-			for k := 0; k < c.N(2, 8); k++ {
+			for k := 0; k < c.N(2, 6); k++ {
 				pick = append(pick, combos[r.Intn(len(combos))])
 			}
 			combos = pick
